@@ -170,9 +170,6 @@ impl Net {
         let seq = (1 << 40) + self.forged_seq;
         self.inflight.entry(to).or_default().push(Pkt { at, seq, from, to, msg, forged: true });
     }
-    pub fn inflight_count(&self) -> usize {
-        self.inflight.values().map(|v| v.len()).sum()
-    }
     pub fn matched_roundtrips(&self, me: Addr, from: Addr) -> u32 {
         *self.matched.get(&(me, from)).unwrap_or(&0)
     }
